@@ -333,6 +333,17 @@ func (res *Response) Less(idx1, idx2 int) bool {
 
 // resultSortKey returns the sort key of a result cell, the string DataRow.GetString returns for the stored value.
 func resultSortKey(raw interface{}, dataType DataType) string {
+	// rows of the local node carry the stored lists, rows of partner nodes the decoded json lists
+	switch val := raw.(type) {
+	case []string:
+		if dataType == StringListCol {
+			return strings.Join(val, ListSepChar1)
+		}
+	case []int64:
+		if dataType == Int64ListCol {
+			return strings.Join(strings.Fields(fmt.Sprint(val)), ListSepChar1)
+		}
+	}
 	list, ok := raw.([]interface{})
 	if !ok {
 		return interface2stringNoDedup(raw)
